@@ -13,6 +13,7 @@ CLAIMED = {
          'blocks stay under the nearest preceding heading / same list item / quote', '3 C07'),
  'C13': ('offset -> line/column kernels: to_line_range / to_inline_range for every sorted line table and byte range (symbolic 64-bit), line_starts for every line structure with LF / CRLF terminators and symbolic line lengths', '3 C13'),
  'C17': ('squash == independent bounded expansion for every reference graph within the bounds and symbolic u8 depth; termination (call-depth bound never hit); CLI rebuild of the squashed tree is faithful', '3 C17'),
+ 'C18': ('outline paths == independent forward enumeration over the documents (soundness of every listed chain, completeness for every heading, finiteness under cycles, rank ordering of the search list), heading levels symbolic', '3 C18'),
  'C20': ('arena representation invariant established by every build within the bounds', '3 C20'),
 }
 NA = {
